@@ -239,9 +239,20 @@ class Run:
                 s["qubit_count"] = o.qubit_count
                 if k == "CB":
                     s["bits"], s["phase"] = o.bits, o.phase
+                    want = tuple(("X", (q,)) for q in range(o.qubit_count) if (o.bits >> q) & 1)
+                    have = tuple((g.name, tuple(g.target_indices)) for g in o.circuit.gates)
+                    if want != have:
+                        self.fail("sweep:comp_basis:circuit_does_not_prepare_bits",
+                                  f"{h.name()} (produced by {h.origin}) has bits {o.bits:b} but its circuit is {have}")
             elif k == "PS":
                 s = self.snap_param(o.parametric_circuit)
                 s["qubit_count"] = o.qubit_count
+            elif k == "QPC":
+                vec = [0.1 * (i + 1) for i in range(o["npar"])]
+                s = {"mapped_angles_at_fixed_vector": tuple(round(float(x), 12) for x in o["mapper"](vec)),
+                     "qulacs_gate_count": o["qc"].get_gate_count(), "qulacs_parameter_count": o["qc"].get_parameter_count()}
+                if o.get("compiled") is not None:
+                    s["compiled"] = self.snap_param(o["compiled"]) if hasattr(o["compiled"], "param_mapping") else self.snap_circ(o["compiled"])
             else:
                 s = {"items": tuple((str(lbl), complex(c)) for lbl, c in o.items())}
             if h.ref is not None:
@@ -257,6 +268,8 @@ class Run:
             return h.obj.circuit
         if h.kind == "PS":
             return h.obj.parametric_circuit
+        if h.kind == "QPC":
+            return None
         return h.obj
 
     def after_step(self, targets, newh, desc, opname):
@@ -515,6 +528,22 @@ class Run:
                 nh = self.new(r, kind, "state.with_gates_applied", d)
                 desc = f"{nh.name()} = {h.name()}.with_gates_applied({txt})"
             N = [nh]
+        elif op == "qulacs_convert":
+            h = self.pick(d["a"], PARAM)
+            if h is None or not HAVE_QULACS:
+                return
+            from quri_parts.qulacs.circuit import compile_parametric_circuit, convert_parametric_circuit
+            qc, mapper = convert_parametric_circuit(h.obj)
+            comp = None
+            if d["fz"] % 2:
+                try:
+                    comp = compile_parametric_circuit(h.obj)
+                except ValueError:   # frozen parametric circuits are not accepted by compile_parametric_circuit (a rejection)
+                    comp = None
+            nh = self.new({"qc": qc, "mapper": mapper, "npar": h.obj.parameter_count, "compiled": comp}, "QPC",
+                          "convert_parametric_circuit" + ("+compile_parametric_circuit" if comp is not None else ""), d)
+            desc = f"{nh.name()} = convert_parametric_circuit({h.name()})" + (" , compile_parametric_circuit" if comp is not None else "")
+            N = [nh]
         elif op == "new_op":
             o = Operator()
             for x in d["terms"]:
@@ -729,7 +758,7 @@ def rnd_term(rng):
 
 WEIGHTS = [("new_qc", 2), ("new_up", 1.5), ("new_lm", 1.5), ("add_gate", 9), ("add_pgate", 4), ("dict_reuse", 1.5), ("add_params", 2),
            ("freeze", 5), ("mcopy", 4), ("plus", 4), ("extend", 2), ("iadd", 1.5), ("bind", 3), ("ictor", 3.5),
-           ("state", 4), ("state_op", 3), ("new_op", 1.5), ("op_mut", 3), ("op_new_from", 2.5), ("op_lookup", 3.5),
+           ("state", 4), ("state_op", 3), ("qulacs_convert", 2), ("new_op", 1.5), ("op_mut", 3), ("op_new_from", 2.5), ("op_lookup", 3.5),
            ("estimate", 3)]
 
 
